@@ -144,18 +144,69 @@ def _job(args):
     return dict(n=n_eval, nontrivial=nontriv, stats=stats, violations=viol, disagreements=disag, pairs=pairs, samples=[sample])
 
 
+def source_level_monotonicity(ctx: Ctx, n: int):
+    """Monotonicity at the level of source files: a project, and the same project with ONE import statement appended to one
+    file (any form: import a.b, from a import b, from a.b import name, star, relative).  Every import edge of the first scan
+    must still be there, so every 'x should import y' that passed still passes and every 'x should not import y' that failed
+    still fails - evaluated on the real code for each edge of the first scan."""
+    from harness import scan
+    for it in range(n):
+        rng = ctx.rng
+        root, dirs, files = scan.gen_tree(rng, max_depth=4)
+        scan.gen_imports(rng, dirs, files, nested=True)
+        pyfiles = [f for f, v in files.items() if v["py"]]
+        if not pyfiles:
+            continue
+        mods = list(dirs) + pyfiles
+        f = rng.choice(pyfiles)
+        stmt = scan.gen_import_stmt(rng, f, mods)
+        if rng.random() < 0.5 and files[f]["body"]:
+            # same imported name as an existing from-import of this file, taken from another module
+            prev = [s0 for s0 in files[f]["body"] if s0[0] == "from" and s0[1] == 0]
+            if prev:
+                others = [m for m in mods if len(m) >= 2 and scan.dotted(m[:-1]) != prev[0][2]]
+                if others:
+                    stmt = ("from", 0, scan.dotted(rng.choice(others)[:-1]), list(prev[0][3]))
+        files2 = {k: {"py": v["py"], "body": list(v["body"])} for k, v in files.items()}
+        files2[f]["body"].append(stmt)
+        b1, b2 = scan.materialise(dirs, files), scan.materialise(dirs, files2)
+        try:
+            r1, r2 = scan.real_scan(b1, root, (root,)), scan.real_scan(b2, root, (root,))
+            ctx.evaluations += 2
+            if r1[0] != "OK" or r2[0] != "OK":
+                continue
+            lost = sorted(set(r1[2]) - set(r2[2]))
+            for (a, b) in lost[:3]:
+                spec = dict(subj=("named", [a]), verbs=["should"], imp=True, exc=False, obj=("named", [b]))
+                o1 = rules.run_rule(rules.build_rule(spec), r1[3])
+                o2 = rules.run_rule(rules.build_rule(spec), r2[3])
+                ctx.evaluations += 2
+                if o1[0] == "PASS" and o2[0] != "PASS":
+                    ctx.violation(dict(dirs=[list(d) for d in dirs], file=scan.dotted(f), source_before=scan.render_file(files[f]["body"]), appended=scan.render_stmt(stmt)[0],
+                                       rule=f"{a} should import {b}", before=o1[0], after=o2[0]),
+                                  f"appending '{scan.render_stmt(stmt)[0]}' to {scan.dotted(f)} turned the passing rule '{a} should import {b}' into {o2[0]}", {"law": "monotone", "kind": "source"})
+                    break
+            if r1[2]:
+                ctx.mark_nontrivial(("srcmono", it))
+        finally:
+            scan.cleanup(b1)
+            scan.cleanup(b2)
+
+
 def run(ctx: Ctx):
+    source_level_monotonicity(ctx, 120 if ctx.quick else 3000)
     n_graphs = 2000 if ctx.quick else 40000
     per = 50
-    jobs = [(ctx.rng.randrange(1 << 30), per, "scan" if i % 8 == 7 else "direct") for i in range(n_graphs // per)]
+    jobs = [(ctx.rng.randrange(1 << 30), per, "scan" if i % 4 == 3 else "direct") for i in range(n_graphs // per)]
     with Pool(NCPU) as pool:
         rs = pool.map(_job, jobs, chunksize=1)
     for r in rs:
         rules.merge_into(ctx, r)
     ctx.stat("graphs", n_graphs)
-    ctx.rule = (f"{n_graphs} random graphs (trees <=13 nodes, collision-free and adversarial names, 1/8 scanned from real file trees), each with one "
+    ctx.rule = (f"{n_graphs} random graphs (trees <=13 nodes, collision-free and adversarial names, 1/4 scanned from real file trees whose imports are written 'import a.b' or 'from a import b'), each with one "
                 "subject/object pick (single or batch; related modules allowed, root included sometimes) and one extra import; all laws "
-                "(duality, negation, negation_except, both decompositions, alias, 4 monotonicity laws) evaluated on the real code, every evaluation also compared with the model; "
+                "(duality, negation, negation_except, both decompositions, alias, 4 monotonicity laws) evaluated on the real code, every evaluation also compared with the model; monotonicity also at source level (one import statement of any form appended to one file of a scanned project: "
+                "every rule 'x should import y' for an import of the first scan still passes); "
                 "non-trivial = graph on which the rule shapes give different verdicts")
 
 
